@@ -45,4 +45,18 @@ theorem c20_operations_apply_their_helper :
     observation of the registry (`UC.has` on the current `reg`), no event of the cycle model -/
 theorem c20_has_is_read_only : Generated.EntityLocal.hasUseCaseSupportReadOnly = true := by decide
 
+/-- OWN ADDRESS (added in round 5; before: "not regenerated", judged only by the SPEC monitor and the differential
+    run): in each of the four read-modify-write operations and in `HasUseCaseSupport`, the address handed to the
+    helper of the data type is the RECEIVER'S OWN — a `model.FeatureAddressType` whose `Device` and `Entity` are those
+    of the receiver's `Address()` (the `address` field of the embedded `Entity`) and whose `Feature` is not set. The
+    translator decides this by a small symbolic evaluation of where the argument comes from: through local variables,
+    field-wise construction, helper methods of the receiver that build the address, parameters of closures and of the
+    generic cycle helper, `&`, `*` and `util.Ptr`. In the model this is `UC.Op.ent`: an operation issued on entity `e`
+    reads and writes the entries keyed by `e` only (`c20_isolation`, `c20_frame_history`, `c20_frame_concurrent` are
+    about exactly that `e`). -/
+theorem c20_operations_pass_own_address :
+    Generated.EntityLocal.addressOwnAddUseCaseSupport = true ∧ Generated.EntityLocal.addressOwnSetUseCaseAvailability = true ∧
+    Generated.EntityLocal.addressOwnRemoveUseCaseSupport = true ∧ Generated.EntityLocal.addressOwnRemoveAllUseCaseSupports = true ∧
+    Generated.EntityLocal.addressOwnHasUseCaseSupport = true := by decide
+
 end Spine.Props.C20Gen
